@@ -68,6 +68,9 @@ pub enum Op {
     IterClose,
     /// extend with fresh keys/values (k, vid)
     Extend(Vec<(u32, u32)>),
+    /// build a separate map with `collect()` (FromIterator) from these pairs, with or without
+    /// a size hint, read it back and drop it
+    Collect(Vec<(u32, u32)>, bool),
     /// guard management of the executing thread
     Pin,
     Unpin,
@@ -177,6 +180,7 @@ impl Op {
             Op::IterNext(n) => json!(["iter_next", n]),
             Op::IterClose => json!(["iter_close"]),
             Op::Extend(kv) => json!(["extend", kv.iter().map(|(k, v)| json!([k, v])).collect::<Vec<_>>()]),
+            Op::Collect(kv, hint) => json!(["collect", kv.iter().map(|(k, v)| json!([k, v])).collect::<Vec<_>>(), hint]),
             Op::Pin => json!(["pin"]),
             Op::Unpin => json!(["unpin"]),
             Op::Refresh => json!(["refresh"]),
@@ -216,6 +220,17 @@ impl Op {
                         Some((p.first()?.as_u64()? as u32, p.get(1)?.as_u64()? as u32))
                     })
                     .collect::<Option<Vec<_>>>()?,
+            ),
+            "collect" => Op::Collect(
+                a.get(1)?
+                    .as_array()?
+                    .iter()
+                    .map(|p| {
+                        let p = p.as_array()?;
+                        Some((p.first()?.as_u64()? as u32, p.get(1)?.as_u64()? as u32))
+                    })
+                    .collect::<Option<Vec<_>>>()?,
+                a.get(2)?.as_bool()?,
             ),
             "pin" => Op::Pin,
             "unpin" => Op::Unpin,
